@@ -107,6 +107,29 @@ theorem authorize_rejects (a : String) (bound : Option String) (scope : Scope) (
           · exact absurd hp.symm hb
       simp [h2]
 
+/-! ## digest equality vs key equality -/
+
+theorem presentedIsH_eq {D : Type} [DecidableEq D] (h : String → D) (hinj : ∀ a b, h a = h b → a = b)
+    (k : String) (p : Option String) : presentedIsH h (h k) p = presentedIs k p := by
+  cases p with
+  | none => rfl
+  | some x =>
+    simp only [presentedIsH, presentedIs, verify]
+    by_cases e : k = x
+    · subst e; simp
+    · have : ¬ h x = h k := fun he => e (hinj _ _ he).symm
+      simp [this, e]
+
+theorem authorizeH_eq_authorize {D : Type} [DecidableEq D] (h : String → D) (hinj : ∀ a b, h a = h b → a = b)
+    (admin bound : Option String) (scope : Scope) (presented : Option String) :
+    authorizeH h (admin.map h) (bound.map h) scope presented = authorize admin bound scope presented := by
+  cases admin with
+  | none => rfl
+  | some a =>
+    cases bound with
+    | none => simp only [authorizeH, authorize, Option.map, presentedIsH_eq h hinj]
+    | some b => simp only [authorizeH, authorize, Option.map, presentedIsH_eq h hinj]
+
 /-! ## association list -/
 
 theorem lookup_eraseKey_self (m : List (String × String)) (n : String) : lookup (eraseKey m n) n = none := by
